@@ -396,7 +396,7 @@ func (dec *Decoder) Skip() {
 
 // maxPrealloc bounds what is allocated in advance on the word of a length that
 // cannot be checked against the input (a reader-backed decoder).
-const maxPrealloc = 1 << 16
+const maxPrealloc = 1 << 12
 
 // prealloc is the part of a declared count that is allocated in advance.
 func prealloc(count int) int {
@@ -420,6 +420,13 @@ func (dec *Decoder) readCount() int {
 		return 0
 	}
 	return count
+}
+
+// ReadCount reads a length or an element count like ReadInt, but refuses a
+// value that is negative or larger than an in-memory input can account for:
+// the decoder's error is set and 0 is returned.
+func (dec *Decoder) ReadCount() int {
+	return dec.readCount()
 }
 
 // readReferred returns the object a reference index points at, or nil and an
